@@ -18,7 +18,23 @@ var c12Blocks = []absDay{
 	{Date: "2021/01/25", Entries: []absIng{{"k/r1", -1}, {"cal", -2}}},
 	{Date: "2021/01/24", Entries: []absIng{{"k/r1", 1}, {"u", 1}, {"k/r1", 0.5}}, Notes: []absNote{{"mood", "ok"}}},
 	{Date: "2021/01/27", Entries: []absIng{{"fish & chips <x> 'y'", 1}, {"k", 2}}, Notes: []absNote{{"", "50% done"}}},
+	c12BigBlock(),
 }
+
+// c12BigBlock: a day of 70 entries (wide, with repeats) whose report alone exceeds the output buffer
+func c12BigBlock() absDay {
+	d := absDay{Date: "2021/01/28"}
+	for j := 0; j < 70; j++ {
+		name := fmt.Sprintf("bulk/%02d", j%50)
+		if j%10 == 3 {
+			name = "k/r2"
+		}
+		d.Entries = append(d.Entries, absIng{name, float64(j%7) - 2.5})
+	}
+	return d
+}
+
+var _ = c12BigBlock
 
 var c12PerDay = [][]string{
 	{"reg"}, {"reg", "--internal-template-name", "left-aligned"}, {"reg", "--use-old-reg-reporter"},
